@@ -50,6 +50,8 @@ def cases(tier, seed):
                     out.append({'kind': 'sched', 'scenario': sc, 'grid': [size, 1], 'size': size, 'draw': draw, 'mode': mode, 'bound': 1 if size > 2 else 2, 'cost': 500})
         for size in ((3, 4) if tier == 'quick' else (2, 3, 4, 5, 6)):
             out.append({'kind': 'sched', 'scenario': 'S8', 'grid': [size, 1], 'size': size, 'mode': mode, 'bound': 1, 'cost': 700})
+        for g9 in ([4, 1], [5, 1]):
+            out.append({'kind': 'sched', 'scenario': 'S9', 'grid': g9, 'mode': mode, 'bound': 1, 'cost': 300})
     # tiny worlds: every arrival order, unbounded
     for mode in ('S', 'N'):
         for sc in ('T1', 'T2'):
@@ -210,6 +212,27 @@ def _scenario(name, case, scratch):
             blk = g.getBlockFromDict({0: 1, 3: 2}, comm, draw)
             out.append(None if blk is None else float(np.sum(blk[3])))
             return out
+        return fn
+    if name == 'S9':
+        # more processes than points along the distributed dimension: some (non-plot) ranks own an empty block in both
+        # layouts and must still take part in every collective
+        shp = [3, 3, 8]
+        eta9 = lay.eta_for(shp)
+        G9 = lay.global_array(shp, np.float64)
+        L9 = {'a': [0, 1, 2], 'b': [1, 0, 2], 'c': [2, 1, 0]}
+
+        def fn(r):
+            h = getLayoutHandler(MPI.COMM_WORLD, dict(L9), [nprocs[0] * nprocs[1]], eta9)
+            n = max(h.bufferSize, 1)
+            a, b, c = np.full(n, np.nan), np.full(n, np.nan), np.full(n, np.nan)
+            ok = True
+            for k, (s, d) in enumerate((('a', 'b'), ('b', 'a'), ('a', 'c'), ('c', 'b'))):
+                ls, ld = h.getLayout(s), h.getLayout(d)
+                a[:] = np.nan
+                a[:ls.size] = lay.block(G9, ls).ravel()
+                h.transpose(a, b, s, d, c if k % 2 else None)
+                ok = ok and lay.same(b[:ld.size].reshape(ld.shape), lay.block(G9, ld))
+            return ok
         return fn
     if name == 'S8':
         # two independent simulations on the two halves of the world: everything must stay on the sub-communicator
